@@ -2,6 +2,7 @@ package graph
 
 import (
 	"strings"
+	"sync/atomic"
 	"unsafe"
 
 	"github.com/specterops/dawgs/util/size"
@@ -66,7 +67,7 @@ func NewTree(root *Node) Tree {
 }
 
 func (s Tree) SizeOf() size.Size {
-	return size.Of(s) + s.Root.size
+	return size.Of(s) + s.Root.SizeOf()
 }
 
 type PathSegment struct {
@@ -96,7 +97,13 @@ func (s *PathSegment) GetTrunkSegment() *PathSegment {
 }
 
 func (s *PathSegment) SizeOf() size.Size {
-	return s.size
+	// Parallel traversal workers descend from sibling segments and update the sizes of their shared trunk concurrently
+	return size.Size(atomic.LoadUintptr((*uintptr)(&s.size)))
+}
+
+// addSize atomically adjusts the tracked size of this segment. A negative adjustment is passed as its two's complement.
+func (s *PathSegment) addSize(delta size.Size) {
+	atomic.AddUintptr((*uintptr)(&s.size), uintptr(delta))
 }
 
 func (s *PathSegment) computeAndSetSize() {
@@ -225,7 +232,7 @@ func (s *PathSegment) Detach() {
 
 	// Update size of the path tree now that this segment has been detached
 	for sizeCursor := s; sizeCursor != nil; sizeCursor = sizeCursor.Trunk {
-		sizeCursor.size -= sizeDetached
+		sizeCursor.addSize(-sizeDetached)
 	}
 }
 
@@ -255,7 +262,7 @@ func (s *PathSegment) Descend(node *Node, relationship *Relationship) *PathSegme
 
 	// Track size on the root segment of this path tree
 	for sizeCursor := s; sizeCursor != nil; sizeCursor = sizeCursor.Trunk {
-		sizeCursor.size += sizeAdded
+		sizeCursor.addSize(sizeAdded)
 	}
 
 	return nextSegment
